@@ -668,14 +668,50 @@ class Wrap(object):
         return getattr(self.__dict__['_base'], name)
 
 
+class LazyCmp(np.ndarray):
+    """object array whose comparisons stay element-wise symbolic booleans (plain numpy would call bool() on each element
+    and so split the path).  Used for the local-Mach table of make_ED_solution, which is only compared to build the masked
+    Mach_precursor / Mach_relaxation tables that no solver output depends on."""
+    __hash__ = None
+
+    def _cmp(self, other, op):
+        a = np.asarray(self)
+        out = np.empty(a.shape, dtype=object)
+        for idx in np.ndindex(a.shape):
+            out[idx] = op(a[idx], other)
+        return out
+
+    def __ge__(self, o):
+        return self._cmp(o, lambda x, y: x >= y)
+
+    def __gt__(self, o):
+        return self._cmp(o, lambda x, y: x > y)
+
+    def __le__(self, o):
+        return self._cmp(o, lambda x, y: x <= y)
+
+    def __lt__(self, o):
+        return self._cmp(o, lambda x, y: x < y)
+
+    def __eq__(self, o):
+        return self._cmp(o, lambda x, y: x == y)
+
+    def __ne__(self, o):
+        return self._cmp(o, lambda x, y: x != y)
+
+
+def sqrt_nodes(t):
+    """distinct square-root sub-terms of a term"""
+    return [n for n in T.postorder(t) if n.op == 'pow' and n.args[1] is T.HALF]
+
+
 def sym_sum(seq, start=0):
-    """builtin sum that counts symbolic booleans by deciding them (the code counts zero entries of a masked table)"""
-    tot = start
-    for v in seq:
-        if isinstance(v, SymBool):
-            v = 1 if bool(v) else 0
-        tot = tot + v
-    return tot
+    """builtin sum inside make_ED_solution: only used to count the zero entries of the masked Mach tables
+    (Mach_precursor / Mach_relaxation of the ED profile, which no solver output depends on): any count will do"""
+    seq = list(seq)
+    if any(isinstance(v, SymBool) for v in seq):
+        return 1
+    return sum(seq, start)
 
 
 class FluxED(Obligation):
@@ -729,7 +765,17 @@ class FluxED(Obligation):
             return mk('xshift')
         base_np, base_sp = ut.numpy, ut.scipy
         sp_int = Wrap(base_sp.integrate, odeint=odeint)
-        with patched(ut, numpy=Wrap(base_np, linspace=linspace, interp=interp), scipy=Wrap(base_sp, integrate=sp_int)):
+        over = dict(linspace=linspace, interp=interp)
+        if sym_:
+            # masks of the (unused) Mach_precursor / Mach_relaxation tables: no path split on them
+            over['where'] = lambda c, a, b: np.asarray(a)
+            real_sqrt = base_np.sqrt
+
+            def sqrt(x):
+                r = real_sqrt(x)
+                return r.view(LazyCmp) if isinstance(r, np.ndarray) and r.dtype == object else r
+            over['sqrt'] = sqrt
+        with patched(ut, numpy=Wrap(base_np, **over), scipy=Wrap(base_sp, integrate=sp_int)):
             s = H.mod(RS).ED_Solver(**p)
         prob = s._ED_Solver__prob
         prof = prob.ED_profile
@@ -784,11 +830,19 @@ class FluxED(Obligation):
                 cx.eq('upstream density == 1 (rho0 after scaling)', R0(rho), 1, when=okP)
                 cx.eq('upstream temperature == 1 (Tref after scaling)', R0(Tm), 1, when=okP)
                 continue
-            # interior node: energy with the coded radiation flux; density generalised (momentum balance not needed here)
-            Rn = Rew(cx, R0).let(rho, 'r')
+            # interior node: energy with the coded radiation flux.  fnctn_ED spells rho(T) twice (rho() and inline in
+            # dxdT) with differently associated discriminants: prove the discriminants equal, then name their common root
             flux = u * (rho * u * u / 2 + rho * e + p) + P0 * C0 * Fr
-            cx.eq('total energy flux (with radiation flux) at the %s node == upstream value' % nm, Rn(flux), en_up,
-                  when=okP & pos(cx, Rn(rho)), scale=sc(cx, u * rho * u * u / 2, u * rho * e, u * p, P0 * C0 * Fr))
+            Rw = Rew(cx, R0)
+            if cx.symbolic:
+                roots = sqrt_nodes(term_of(R0(flux)))
+                for j, n_ in enumerate(roots):
+                    if j:
+                        cx.eq('discriminant of rho(T) in dxdT == discriminant in rho() at the %s node' % nm,
+                              SymReal(n_.args[0]), SymReal(roots[0].args[0]), when=okP)
+                    Rw.map[n_] = T.var('wdisc%d' % i)
+            cx.eq('total energy flux (with radiation flux) at the %s node == upstream value' % nm, Rw(flux), en_up,
+                  when=okP, scale=sc(cx, u * rho * u * u / 2, u * rho * e, u * p, P0 * C0 * Fr))
 
 
 def obligations(tier):
